@@ -160,3 +160,13 @@ func inModule(fn *ssa.Function) bool {
 	return fn.Pkg != nil && fn.Pkg.Pkg != nil &&
 		(fn.Pkg.Pkg.Path() == modPath || len(fn.Pkg.Pkg.Path()) > len(modPath) && fn.Pkg.Pkg.Path()[:len(modPath)+1] == modPath+"/")
 }
+
+// cyclic reports whether block b lies on a CFG cycle.
+func cyclic(b *ssa.BasicBlock) bool {
+	for _, s := range b.Succs {
+		if s == b || reachesBlock(s, b) {
+			return true
+		}
+	}
+	return false
+}
